@@ -4,6 +4,8 @@ import (
 	"context"
 	"time"
 
+	"tunnox-core/internal/core/storage"
+	"tunnox-core/internal/core/storage/hybrid"
 	"tunnox-core/internal/core/storage/memory"
 )
 
@@ -11,22 +13,44 @@ type c19Store struct {
 	*memory.Storage
 }
 
-func (s *c19Store) Set(k string, v any, ttl time.Duration) error { verif_Yield(); return s.Storage.Set(k, v, ttl) }
-func (s *c19Store) Get(k string) (any, error)                    { verif_Yield(); return s.Storage.Get(k) }
-func (s *c19Store) Delete(k string) error                        { verif_Yield(); return s.Storage.Delete(k) }
-func (s *c19Store) Exists(k string) (bool, error)                { verif_Yield(); return s.Storage.Exists(k) }
+func (s *c19Store) Set(k string, v any, ttl time.Duration) error {
+	verif_Yield()
+	return s.Storage.Set(k, v, ttl)
+}
+func (s *c19Store) Get(k string) (any, error)     { verif_Yield(); return s.Storage.Get(k) }
+func (s *c19Store) Delete(k string) error         { verif_Yield(); return s.Storage.Delete(k) }
+func (s *c19Store) Exists(k string) (bool, error) { verif_Yield(); return s.Storage.Exists(k) }
 func (s *c19Store) SetNX(k string, v any, ttl time.Duration) (bool, error) {
 	verif_Yield()
 	return s.Storage.SetNX(k, v, ttl)
 }
-func (s *c19Store) Incr(k string) (int64, error)             { verif_Yield(); return s.Storage.Incr(k) }
-func (s *c19Store) AppendToList(k string, v any) error       { verif_Yield(); return s.Storage.AppendToList(k, v) }
-func (s *c19Store) RemoveFromList(k string, v any) error     { verif_Yield(); return s.Storage.RemoveFromList(k, v) }
-func (s *c19Store) GetList(k string) ([]any, error)          { verif_Yield(); return s.Storage.GetList(k) }
+func (s *c19Store) Incr(k string) (int64, error) { verif_Yield(); return s.Storage.Incr(k) }
+func (s *c19Store) AppendToList(k string, v any) error {
+	verif_Yield()
+	return s.Storage.AppendToList(k, v)
+}
+func (s *c19Store) RemoveFromList(k string, v any) error {
+	verif_Yield()
+	return s.Storage.RemoveFromList(k, v)
+}
+func (s *c19Store) GetList(k string) ([]any, error) { verif_Yield(); return s.Storage.GetList(k) }
 
 func newC19Repo(ctx context.Context) *HTTPDomainMappingRepository {
 	verif_ClockSet(int64(1) << 60)
 	return NewHTTPDomainMappingRepository(NewRepository(&c19Store{memory.New(ctx)}), []string{"tunnox.net"})
+}
+
+// two repositories as two server nodes have them: on one store, or each on its own tiered store
+// (node-local cache over the shared cache)
+func newC19Nodes(ctx context.Context, tiered bool) (*HTTPDomainMappingRepository, *HTTPDomainMappingRepository) {
+	verif_ClockSet(int64(1) << 60)
+	shared := &c19Store{memory.New(ctx)}
+	var s1, s2 storage.Storage = shared, shared
+	if tiered {
+		s1 = hybrid.NewWithSharedCache(ctx, memory.New(ctx), shared, nil, hybrid.DefaultConfig())
+		s2 = hybrid.NewWithSharedCache(ctx, memory.New(ctx), shared, nil, hybrid.DefaultConfig())
+	}
+	return NewHTTPDomainMappingRepository(NewRepository(s1), []string{"tunnox.net"}), NewHTTPDomainMappingRepository(NewRepository(s2), []string{"tunnox.net"})
 }
 
 // reachable counts the mapping records that a lookup of the full domain, or a scan of all
@@ -57,11 +81,16 @@ func itoa(i int) string {
 // wins, the lookup routes to the winner and to nobody else.
 func Harness_C19_claim_race() {
 	ctx := context.Background()
-	r := newC19Repo(ctx)
+	// the two claims arrive at two server nodes
+	tiered := verif_Bool()
+	r, rB := newC19Nodes(ctx, tiered)
+	if tiered {
+		verif_Cover("C19.race.tiered")
+	}
 	var m1, m2 *HTTPDomainMapping
 	var e1, e2 error
 	verif_Spawn(func() { m1, e1 = r.CreateMapping(ctx, 1001, "app", "tunnox.net", "127.0.0.1", 8080) })
-	verif_Spawn(func() { m2, e2 = r.CreateMapping(ctx, 1002, "app", "tunnox.net", "127.0.0.1", 9090) })
+	verif_Spawn(func() { m2, e2 = rB.CreateMapping(ctx, 1002, "app", "tunnox.net", "127.0.0.1", 9090) })
 	verif_Quiesce()
 	verif_Assert("C19.race.at_most_one", !(e1 == nil && e2 == nil))
 	verif_Assert("C19.race.one_wins", e1 == nil || e2 == nil)
